@@ -443,6 +443,16 @@ class Endpoint:
 
     def on_send(self, sock: FakeSocket, data: bytes):
         self.before_bytes(sock, data)  # may raise a send fault (then the bytes are not delivered)
+        if data.startswith(b"\x16NULLTLS-HELLO "):
+            # null-TLS marker handshake (vlib.nulltls): answer with an identity valid for the dialled host
+            from . import nulltls
+
+            host = str(sock.addr[0]).strip("[]").lower()
+            is_ip = ":" in host or host.replace(".", "").isdigit()
+            ident = nulltls.Identity([("IP Address" if is_ip else "DNS", host)], label="endpoint")
+            sock.state.setdefault("tls_hellos", []).append(data)
+            sock.rx.append(nulltls.CERT + b"%d\n" % ident.id)
+            return
         sock.tx += data
         buf = sock.state.setdefault("buf", bytearray())
         buf += data
